@@ -1,6 +1,7 @@
 package main
 
 import (
+	"os/exec"
 	"crypto/sha1"
 	"encoding/json"
 	"fmt"
@@ -51,6 +52,19 @@ func labelHash(parts ...string) string {
 var reachRe = regexp.MustCompile(`verifReach\("([^"]+)"\)`)
 
 // staticReachLabels extracts the verifReach labels written in the harness body.
+// repoRevision: HEAD of the repository under check, with a marker when the working tree differs.
+func repoRevision() string {
+	out, err := exec.Command("git", "-C", *repo, "rev-parse", "--short", "HEAD").Output()
+	if err != nil {
+		return "unknown"
+	}
+	rev := strings.TrimSpace(string(out))
+	if st, err := exec.Command("git", "-C", *repo, "status", "--porcelain").Output(); err == nil && len(strings.TrimSpace(string(st))) > 0 {
+		rev += "+modified"
+	}
+	return rev
+}
+
 func staticReachLabels(h *harnessInfo) []string { return staticLabels(h, "verifReach") }
 
 // staticSupportLabels: labels of verifSupport calls. Such a label states that an outcome HAS
@@ -517,7 +531,7 @@ func (r *report) writeEvidence(hs []*harnessInfo, stats []*interp.HarnessStats, 
 		"bounded claim: holds for every value of the symbolic inputs within the bounds listed per harness; nothing is claimed outside them",
 		"stubs/models of DESIGN.md §2.6 (bytealg, math UFs with axioms, math/rand as nondeterministic contract stubs, fmt/log as native call-outs or no-ops, sync primitives as engine objects)",
 		"floating point abstracted to extended reals (no rounding, no signed zero)",
-		"solver: z3 4.8.12 via one persistent pipe per worker; (error lines and unknown are reported as inconclusive, never as success")
+		"solver: "+*solverBin+" (z3-new = z3 5.1.0) via one persistent pipe per worker, unknown answers retried in a fresh process; (error lines and unknown are reported as inconclusive, never as success; every violation is replayed against the native build before it is reported; repo revision "+repoRevision()+")")
 	ev := map[string]interface{}{
 		"property_id": r.prop,
 		"tier":        r.tier,
